@@ -135,6 +135,52 @@ def handle (st : DState) (line : String) : DState × String :=
     | some w, some t => (st, cbsStr [] ++ " " ++ (if w.g.hasSets then setDump (w.g.sets t) else "nosets"))
     | none, some _ => (st, "nogroup")
     | _, _ => (st, "bad-op")
+  | ["restore", d, snap] =>
+    -- snap = six groups `alive;movAvg;l1,l2,...` separated by `|`, in type order
+    let parseColl (g : String) : Option (Bool × Coll) :=
+      match g.splitOn ";" with
+      | [a, ma, ls] => do
+        let ma ← parseInt? ma
+        let lats ← if ls = "" then some [] else (ls.splitOn ",").mapM parseInt?
+        pure (a = "1", ⟨lats, ma⟩)
+      | _ => none
+    match st.w, d.toNat?, (snap.splitOn "|").mapM parseColl with
+    | some w, some d, some cs =>
+      if cs.length = 6 then
+        worldEv st w (.restore d (fun t => (cs.getD t (false, Coll.empty)).2) (fun t => (cs.getD t (false, Coll.empty)).1)) none
+      else (st, "bad-op")
+    | _, _, _ => (st, "bad-op")
+  | ["capture"] =>
+    match st.w with
+    | some w =>
+      (st, "fb=" ++ ",".intercalate ((List.range 6).map fun t =>
+        let c := sortNat (captureFallbackAll w.g t).eraseDups
+        if c.isEmpty then "-" else "/".intercalate (c.map toString)))
+    | none => (st, "bad-op")
+  | ["floor", fbs] =>
+    match st.w, ((fbs.splitOn ",").mapM fun x => if x = "-" then some (none : Option Nat) else x.toNat?.map some) with
+    | some w, some fb =>
+      let r := floorW w (fun t => (fb.getD t none))
+      ({ st with w := some r.1 }, cbsStr r.2 ++ " " ++ groupDump r.1.g)
+    | _, _ => (st, "bad-op")
+  | ["dial", mode, out, dom, rr, l4, s6, d6, excl, b0] =>
+    -- the real routeDial: mode i|p|c, outbound u|r|x, domain n|d|l, routed-outbound-reserved 0|1,
+    -- l4 u|t, src/dst family 4|6, exclusion, dial outcome of the first attempt o|u|e
+    let mode? : Option DialMode := match mode with | "i" => some .ip | "p" => some .domainPlus | "c" => some .domainCao | _ => none
+    let out? : Option OutKind := match out with | "u" => some .user | "r" => some .reserved | "x" => some .routing | _ => none
+    let dom? : Option DomKind := match dom with | "n" => some .none | "d" => some .name | "l" => some .ipLiteral | _ => none
+    let b0? : Option DialOutcome := match b0 with | "o" => some .ok | "u" => some .unreachable | "e" => some .otherErr | _ => none
+    match st.w, mode?, out?, dom?, b0?, parseExcl? excl with
+    | some w, some m, some o, some dm, some b, some ex =>
+      let strict := dialStrict m o dm (rr = "1")
+      let nt := dialSelType (l4 = "u") (s6 = "6") (d6 = "6")
+      let r := routeDialAll w nt strict ex b
+      let isOk : Except SelErr (List SelOk) → Bool := fun a => match a with | .ok _ => true | .error _ => false
+      let dials := (r.2.2.filter isOk).length
+      let last := match r.2.2.getLast? with | some a => resStrNoLat a | none => "?"
+      ({ st with w := some r.1 }, "strict=" ++ boolStr strict ++ " dials=" ++ toString dials ++ " last=" ++ last ++
+        " " ++ cbsStr r.2.1 ++ " " ++ groupDump r.1.g)
+    | _, _, _, _, _, _ => (st, "bad-op")
   | ["policy", pol, fi] =>
     match st.w, parsePolicy? pol, parseInt? fi with
     | some w, some p, some fi => worldEv st w (.policy p fi) none
